@@ -550,12 +550,124 @@ static void po_case(const POCase &pc, pbt::Ctx &ctx)
   ctx.nt(wrongTypeRead || removedNonLast);
 }
 
+// ---------------------------------------------------------------- parameter values crossing a module boundary
+#include "C10_shared_types.h"
+#include <dlfcn.h>
+#include <unistd.h>
+struct Plugin
+{
+  void *h = nullptr;
+  int (*isMaterial)(const utility::Any *) = nullptr;
+  int (*isCoord)(const utility::Any *) = nullptr;
+  int (*isInt)(const utility::Any *) = nullptr;
+  void (*setMaterial)(utility::Any *, int) = nullptr;
+  void (*setCoord)(utility::Any *, int) = nullptr;
+  void (*setInt)(utility::Any *, int) = nullptr;
+  int (*materialId)(const utility::Any *) = nullptr;
+  std::string error;
+  Plugin()
+  {
+    char exe[4096];
+    ssize_t n = readlink("/proc/self/exe", exe, sizeof exe - 1);
+    std::string dir = n > 0 ? std::string(exe, (size_t)n) : std::string(".");
+    dir = dir.substr(0, dir.rfind('/'));
+    const std::string path = dir + "/C10_plugin.so";
+    // lazy binding: the module refers to rkcommon::utility::demangle (error messages of Any::get), which lives in the host's
+    // static library and is never called on the paths used here
+    h = dlopen(path.c_str(), RTLD_LAZY | RTLD_LOCAL);
+    if (!h) {
+      error = std::string("cannot load ") + path + ": " + dlerror();
+      return;
+    }
+    isMaterial = (int (*)(const utility::Any *))dlsym(h, "c10_plugin_is_material");
+    isCoord = (int (*)(const utility::Any *))dlsym(h, "c10_plugin_is_coord");
+    isInt = (int (*)(const utility::Any *))dlsym(h, "c10_plugin_is_int");
+    setMaterial = (void (*)(utility::Any *, int))dlsym(h, "c10_plugin_set_material");
+    setCoord = (void (*)(utility::Any *, int))dlsym(h, "c10_plugin_set_coord");
+    setInt = (void (*)(utility::Any *, int))dlsym(h, "c10_plugin_set_int");
+    materialId = (int (*)(const utility::Any *))dlsym(h, "c10_plugin_material_id");
+    if (!isMaterial || !isCoord || !isInt || !setMaterial || !setCoord || !setInt || !materialId)
+      error = "C10_plugin.so lacks an entry point";
+  }
+};
+static void across_modules_case(const std::vector<Op> &ops, pbt::Ctx &ctx)
+{
+  static Plugin plugin;
+  if (!plugin.error.empty()) {
+    // a harness problem, not a property violation: end the process without a failing case (the driver reports CHECK-ERROR)
+    fprintf(stderr, "harness: %s\n", plugin.error.c_str());
+    _exit(2);
+  }
+  PO po;
+  int type = -1, val = 0;  // model of parameter "m": -1 absent, 0 int, 1 Material, 2 Coord
+  bool crossed = false;
+  for (const Op &op : ops) {
+    const int ty = (int)(op.a % 3), v = (int)op.c;
+    utility::Any *data = nullptr;
+    auto locate = [&] {
+      data = nullptr;
+      for (auto it = po.params_begin(); it != po.params_end(); ++it)
+        if ((*it)->name == "m")
+          data = &(*it)->data;
+    };
+    switch (((op.k % 4) + 4) % 4) {
+    case 0:  // the host sets
+      if (ty == 0)
+        po.setParam<int>("m", v);
+      else if (ty == 1)
+        po.setParam<c10::Material>("m", c10::Material{v, 0.5f * v});
+      else
+        po.setParam<c10::Coord>("m", c10::Coord{(float)v, (float)(v + 1), (float)(v + 2)});
+      type = ty;
+      val = v;
+      break;
+    case 1:  // the module sets (through the parameter's Any)
+      locate();
+      if (!data)
+        break;
+      if (ty == 0)
+        plugin.setInt(data, v);
+      else if (ty == 1)
+        plugin.setMaterial(data, v);
+      else
+        plugin.setCoord(data, v);
+      type = ty;
+      val = v;
+      crossed = true;
+      break;
+    case 2: {  // the host reads with each type
+      const int gi = po.getParam<int>("m", -999);
+      const c10::Material gm = po.getParam<c10::Material>("m", c10::Material{-999, 0});
+      const c10::Coord gc = po.getParam<c10::Coord>("m", c10::Coord{-999, 0, 0});
+      PBT_ASSERT_MSG(gi == (type == 0 ? val : -999), "host getParam<int> = " << gi << " (stored type " << type << ", value " << val << ")");
+      PBT_ASSERT_MSG(gm.id == (type == 1 ? val : -999), "host getParam<Material>.id = " << gm.id << " (stored type " << type << ", value " << val << ")");
+      PBT_ASSERT_MSG(gc.x == (type == 2 ? (float)val : -999.f), "host getParam<Coord>.x = " << gc.x << " (stored type " << type << ", value " << val << ")");
+      break;
+    }
+    default:  // the module asks for the type
+      locate();
+      if (!data)
+        break;
+      PBT_ASSERT_MSG(plugin.isInt(data) == (type == 0) && plugin.isMaterial(data) == (type == 1) && plugin.isCoord(data) == (type == 2),
+          "the module sees is<int>=" << plugin.isInt(data) << " is<Material>=" << plugin.isMaterial(data) << " is<Coord>=" << plugin.isCoord(data) << " for a parameter of stored type " << type);
+      if (type == 1)
+        PBT_ASSERT(plugin.materialId(data) == val);
+      crossed = true;
+      break;
+    }
+  }
+  if (crossed)
+    ctx.label("value crossed the module boundary");
+  ctx.nt(crossed);
+}
+
 static void register_properties()
 {
   auto ops = pbt::vec(pbt::genOp(NKINDS, 7, 7, 7), 40);
   pbt::property<std::vector<Op>>("flatmap_string_int", 1500, ops, flatmap_case<std::string, int>);
   pbt::property<std::vector<Op>>("flatmap_int_string", 1500, ops, flatmap_case<int, std::string>);
   pbt::property<std::vector<Op>>("flatmap_string_tracked", 1500, ops, flatmap_case<std::string, Tracked>);
+  pbt::property<std::vector<Op>>("parameters_across_modules", 800, pbt::vec(pbt::genOp(4, 2, 1, 40), 16), across_modules_case);
   pbt::property<std::vector<Op>>("flatmap_string_string", 1500, ops, flatmap_case<std::string, std::string>);
   pbt::property<std::vector<Op>>("flatmap_int_int", 1500, ops, flatmap_case<int, int>);
   pbt::property<POCase>("parameterized_object", 3000, rc::gen::pair(pbt::range<int>(0, 63), pbt::vec(pbt::genOp(P_NKINDS, 5, 7, 9), 40)), po_case);
